@@ -118,6 +118,7 @@ pub enum K {
     Exec(crate::exec::ExecK),
     Stream(crate::exec::StreamK),
     Trans(crate::transient::TransK),
+    Sig(crate::sig::SigK),
     /// insertion failed before a kind-specific state made sense
     Failed,
 }
@@ -133,6 +134,7 @@ impl K {
             K::Exec(_) => "executor",
             K::Stream(_) => "stream",
             K::Trans(_) => "transient",
+            K::Sig(_) => "signals",
             K::Failed => "failed",
         }
     }
@@ -230,6 +232,7 @@ pub struct St {
     pub adapters: BTreeMap<Id, crate::adapter::AdapterM>,
     pub adapter_keys: BTreeMap<usize, Id>,
     pub io_tasks: BTreeMap<Id, crate::adapter::IoTaskM>,
+    pub sig: crate::sig::SigGlobal,
 }
 
 pub const KEY_SUB_MASK: usize = 0xFFFF;
